@@ -15,3 +15,4 @@ def run(prog, rep):
     r_err.run(prog, rep)
     from ..rules import r_close as _rc
     _rc.run_fapl(prog, rep)
+    _rc.run_hid_owner(prog, rep)
